@@ -115,3 +115,6 @@ offset_table_count!(c04_bot_n0_le, ExplicitVRLittleEndianEncoder, []);
 offset_table_count!(c04_bot_n2_le, ExplicitVRLittleEndianEncoder, [a, b]);
 offset_table_count!(c04_bot_n3_be, ExplicitVRBigEndianEncoder, [a, b, c]);
 offset_table_count!(c04_bot_n2_il, ImplicitVRLittleEndianEncoder, [a, b]);
+
+// Delimited multi-valued variants (dates, times, strings): Kani harnesses over them exceeded 600 s
+// in the format machinery; their byte count is decided by the Verus unit C04.collection_delimited.
